@@ -46,7 +46,16 @@ def gen_size(rng, big_ok):
     return rng.randint(60000, 70000)
 
 def frag_sizes(rng, body_len, maxfrag):
-    """chunk sizes for all fragments but the last; at least one entry"""
+    """chunk sizes for all fragments but the last; at least one entry; every fragment
+    (the last one, which takes the rest, included) fits one interleaved frame"""
+    for _ in range(20):
+        sizes = _frag_sizes(rng, body_len, maxfrag)
+        if max(sizes) <= 1460 and body_len - sum(sizes) <= 40000:
+            return sizes
+    f = 1400
+    return [f] * max(1, -(-body_len // f) - 1)
+
+def _frag_sizes(rng, body_len, maxfrag):
     style = rng.random()
     if body_len <= 1 or style < 0.05:
         return [rng.choice([0, 1, 1, 2])] * rng.randint(1, 2)
@@ -185,7 +194,11 @@ def with_wire(ck, plans):
     """attach x_C06_gen's bytes to every plan"""
     lines = [vlib.vs(p) for p in plans]
     outs = vlib.run_driver(ck.prop, "C06_gen", lines)
-    return [[p, vlib.vparse(o)] for p, o in zip(plans, outs)]
+    cases = [[p, vlib.vparse(o)] for p, o in zip(plans, outs)]
+    for p, w in cases:
+        if any(len(f) > 65535 + 4 for f in w):
+            raise vlib.Broken("generator produced an RTP packet that does not fit an interleaved frame")
+    return cases
 
 def run(ck):
     if not ck.prepare():
@@ -255,6 +268,8 @@ def run(ck):
             cd = (H264, H265, AAC)[i % 3]
             plan, npk = gen_plan(rng, cd, T, big_ok=False)
             plans.append(plan + [[1, gen_pick(rng, npk)]])
+        wf = vlib.run_driver(ck.prop, "C06_wf", [vlib.vs(p) for p in plans])
+        ck.extra["rearranged_cases_inside_theorem_guard"] = "%d of %d" % (sum(1 for x in wf if x == "1"), len(wf))
         cases = with_wire(ck, plans)
         ck.stream("rearranged", cases, "C06_run", "C06", "C06_ok", nontrivial=nontrivial,
                   sig=lambda c, e, o: "depack-rearranged-" + ("h264", "h265", "aac")[c[0][0]], sample=2)
